@@ -421,12 +421,46 @@ class NpShim(object):
     def sort(a, axis=-1, **k):
         if not is_sym(a):
             return _np.sort(a, axis=axis, **k)
+        if CTX.set_theory and a.ndim == 1:
+            use("np.sort(set-like)")
+            from . import setarr
+            return setarr.sort(a)
         use("np.sort")
         if a.ndim != 1:
             raise Unsupported("np.sort of a multi-dimensional proxy")
         probe = sym._elem_num(a._snapshot()(sym._fresh_idx(a.axes, "p")))
         kinds = (FIN,) if probe.isfin() is True else (FIN, NAN, PINF, NINF)
         return sym.arrfn_atom("sort", a, (), kinds)
+
+    @staticmethod
+    def unique(a, *args, **k):
+        if not is_sym(a):
+            return _np.unique(a, *args, **k)
+        if args or k or not CTX.set_theory:
+            raise Unsupported("np.unique of a proxy (only the plain one-dimensional form, under the set theory)")
+        use("np.unique(set-like)")
+        from . import setarr
+        return setarr.unique(a)
+
+    @staticmethod
+    def intersect1d(a, b, *args, **k):
+        if not any_sym((a, b)):
+            return _np.intersect1d(a, b, *args, **k)
+        if args or k or not CTX.set_theory:
+            raise Unsupported("np.intersect1d of proxies (only the plain form, under the set theory)")
+        use("np.intersect1d(set-like)")
+        from . import setarr
+        return setarr.intersect1d(a, b)
+
+    @staticmethod
+    def isin(x, r, *args, **k):
+        if not any_sym((x, r)):
+            return _np.isin(x, r, *args, **k)
+        if args or k or not CTX.set_theory or not isinstance(x, SArr):
+            raise Unsupported("np.isin of proxies (only the plain form, under the set theory)")
+        use("np.isin(set-like)")
+        from . import setarr
+        return setarr.isin(x, r)
 
     @staticmethod
     def searchsorted(a, v, side="left", **k):
@@ -560,6 +594,10 @@ def sh_len(x):
         return x.shape[0]
     if isinstance(x, WhereComp):
         return x._count()
+    if isinstance(x, GenericRange):
+        # len(range(lo, hi)) = max(0, hi - lo)
+        lo, hi = sym._toint(x.lo.v), sym._toint(x.hi.v)
+        return SNum(FIN, z3.If(hi > lo, hi - lo, 0), is_int=True, is_numpy=False)
     return _b.len(x)
 
 
